@@ -3,7 +3,13 @@
 
    A behaviour is ONE call of connect(rdwr=.., llcp=.., card=.., terminate=..) against one environment.
    The configuration `cfg` is chosen in Init and never changes:
-     has[o]    option o \in {"rdwr","llcp","card"} is given
+     has[o]    option o \in {"rdwr","llcp","card"} is given (a dictionary, possibly empty)
+     empty[o]  the option is given as an EMPTY dictionary: the mode is active with all its documented defaults -
+               rdwr: targets 106A/106B/212F, on-startup keeps them, on-discover accepts every tag (not P2P
+               devices), on-connect/on-release return True, beep; llcp: on-startup keeps the llc, on-connect /
+               on-release return True, both roles; card: the default on-startup returns None, which removes the
+               option.  The defaults are ordinary callbacks: same order, polling and return value as when the
+               same values are given explicitly (only that no user code observes them)
      su[o]     what its 'on-startup' returns: "keep" (the proper object), "drop" (a false value),
                "wrong" (a true value of the wrong type)
      disc[o], conn[o], rel[o]   what 'on-discover', 'on-connect', 'on-release' return (TRUE/FALSE)
@@ -59,21 +65,27 @@ Canon(c) ==
     /\ ((~c.has["rdwr"] \/ c.su["rdwr"] # "keep" \/ ~c.disc["rdwr"] \/ ~c.conn["rdwr"]) => c.beep)
     /\ ((~c.has["llcp"] \/ c.su["llcp"] # "keep") => c.role = "both")
     /\ (c.env \in {"nothing", "ioerror", "unsupported"} => c.k = 0)
+    /\ \A o \in Opt : c.empty[o] => /\ c.has[o] /\ c.disc[o] /\ c.conn[o] /\ c.rel[o]
+                                     /\ c.su[o] = (IF o = "card" THEN "drop" ELSE "keep")
+    /\ (c.empty["rdwr"] => c.beep) /\ (c.empty["llcp"] => c.role = "both")
 
 CfgSpace(kmax, terms) ==
     [has : [Opt -> BOOLEAN], su : [Opt -> StartupRes], disc : [Opt -> BOOLEAN], conn : [Opt -> BOOLEAN],
-     rel : [Opt -> BOOLEAN], beep : BOOLEAN, role : Roles, env : Envs, k : 0..kmax, termAt : terms]
+     rel : [Opt -> BOOLEAN], empty : [Opt -> BOOLEAN], beep : BOOLEAN, role : Roles, env : Envs, k : 0..kmax, termAt : terms]
 
 \* the canonical configurations, built constructively (per option: absent | dropped | wrong type | kept with
 \* the callback results that can matter)
-OV(has, su, disc, conn, rel) == [has |-> has, su |-> su, disc |-> disc, conn |-> conn, rel |-> rel]
+OV(has, su, disc, conn, rel) == [has |-> has, su |-> su, disc |-> disc, conn |-> conn, rel |-> rel, empty |-> FALSE]
+\* the option given as {}: all defaults (card: the default on-startup returns None = option removed)
+EmptyDict(isCard) == [OV(TRUE, IF isCard THEN "drop" ELSE "keep", TRUE, TRUE, TRUE) EXCEPT !.empty = TRUE]
 Absent == OV(FALSE, "keep", TRUE, TRUE, TRUE)
 Kept(withDisc) ==
     {OV(TRUE, "keep", TRUE, FALSE, TRUE), OV(TRUE, "keep", TRUE, TRUE, TRUE), OV(TRUE, "keep", TRUE, TRUE, FALSE)}
     \cup (IF withDisc THEN {OV(TRUE, "keep", FALSE, TRUE, TRUE)} ELSE {})
-Variants(withDisc) == {Absent, OV(TRUE, "drop", TRUE, TRUE, TRUE), OV(TRUE, "wrong", TRUE, TRUE, TRUE)} \cup Kept(withDisc)
-BeepOf(r) == IF r.has /\ r.su = "keep" /\ r.disc /\ r.conn THEN BOOLEAN ELSE {TRUE}
-RoleOf(l) == IF l.has /\ l.su = "keep" THEN Roles ELSE {"both"}
+Variants(withDisc, isCard) == {Absent, EmptyDict(isCard), OV(TRUE, "drop", TRUE, TRUE, TRUE), OV(TRUE, "wrong", TRUE, TRUE, TRUE)}
+                              \cup Kept(withDisc)
+BeepOf(r) == IF r.has /\ r.su = "keep" /\ r.disc /\ r.conn /\ ~r.empty THEN BOOLEAN ELSE {TRUE}
+RoleOf(l) == IF l.has /\ l.su = "keep" /\ ~l.empty THEN Roles ELSE {"both"}
 KOf(e, kmax) == IF e \in {"nothing", "ioerror", "unsupported"} THEN {0} ELSE 0..kmax
 Mk(r, l, c, b, ro, e, k, t) ==
     [has |-> [o \in Opt |-> CASE o = "rdwr" -> r.has [] o = "llcp" -> l.has [] o = "card" -> c.has],
@@ -81,10 +93,11 @@ Mk(r, l, c, b, ro, e, k, t) ==
      disc |-> [o \in Opt |-> CASE o = "rdwr" -> r.disc [] o = "llcp" -> l.disc [] o = "card" -> c.disc],
      conn |-> [o \in Opt |-> CASE o = "rdwr" -> r.conn [] o = "llcp" -> l.conn [] o = "card" -> c.conn],
      rel |-> [o \in Opt |-> CASE o = "rdwr" -> r.rel [] o = "llcp" -> l.rel [] o = "card" -> c.rel],
+     empty |-> [o \in Opt |-> CASE o = "rdwr" -> r.empty [] o = "llcp" -> l.empty [] o = "card" -> c.empty],
      beep |-> b, role |-> ro, env |-> e, k |-> k, termAt |-> t]
 Terms == 0..TMax
 IsCfg(x) ==
-    \E r \in Variants(TRUE), l \in Variants(FALSE), c \in Variants(TRUE) :
+    \E r \in Variants(TRUE, FALSE), l \in Variants(FALSE, FALSE), c \in Variants(TRUE, TRUE) :
       /\ Cardinality({v \in {<<1, r.has>>, <<2, l.has>>, <<3, c.has>>} : v[2]}) <= MaxOpts
       /\ \E e \in Envs :
         \E b \in BeepOf(r), ro \in RoleOf(l), k \in KOf(e, KMax), t \in Terms : x = Mk(r, l, c, b, ro, e, k, t)
@@ -214,12 +227,14 @@ Enter(p) == /\ Goto(p)
             /\ role' = IF p = "llcp_act" THEN FirstRole ELSE role
 
 DeviceFails == cfg.env \in {"ioerror", "unsupported"}
+\* the default rdwr target list has three entries: targets the device does not support are skipped, not raised
+SenseFails == cfg.env = "ioerror" \/ (cfg.env = "unsupported" /\ ~cfg.empty["rdwr"])
 ListenFails == DeviceFails \/ cfg.env = "tagU"       \* listen() ends in an exception
 Fail == /\ err' = TRUE /\ Goto("ret")
 
 -----------------------------------------------------------------------------
 \* reader/writer
-SenseRes == IF DeviceFails THEN cfg.env
+SenseRes == IF SenseFails THEN cfg.env
             ELSE IF cfg.env \in {"tag", "tagU", "tagX"} /\ ~gone THEN "tag"
             ELSE IF cfg.env = "peerT" /\ ~gone THEN "dep"
             ELSE "none"
@@ -227,7 +242,7 @@ SenseRes == IF DeviceFails THEN cfg.env
 RdwrSense ==
     /\ pc = "rdwr_sense"
     /\ found' = SenseRes
-    /\ IF DeviceFails THEN Fail /\ UNCHANGED role
+    /\ IF SenseFails THEN Fail /\ UNCHANGED role
        ELSE IF SenseRes = "none" THEN Enter(AfterPhase("rdwr")) /\ UNCHANGED err
        ELSE Goto("rdwr_disc") /\ UNCHANGED <<err, role>>
     /\ Step("Sense")
